@@ -225,6 +225,27 @@ def run(prog: Program, ctx: Ctx) -> None:  # noqa: PLR0912,PLR0915
                 ctx.ob("R1", key(fn, f"release:{kind}"), not bad,
                        f"every exit after the yield runs `git {kind}`" if not bad else f"a path from the yield reaches {'/'.join(b.kind for b in bad)} without `git {kind}`",
                        where(fn, y.stmt), {"path": path_text(wit)})
+        # (d) no release without a successful acquire: from the acquire's failure exits (the raise on a non-zero return code, or the call itself
+        #     raising when check=True) no release statement is reachable - a `branch -D` there deletes a branch the user already had under that name
+        res_names_d = [t.id for s_ in [stmt_of(call)] if isinstance(s_, ast.Assign) for t in s_.targets if isinstance(t, ast.Name)]
+        fail_nodes = []
+        for x in cfg.live_nodes():
+            if x.kind == "stmt" and isinstance(x.stmt, ast.Raise) and x in cfg.reach(acq_nodes, avoid=lambda n_: n_ in ynodes, normal_only=True):
+                tests = [a for a in ancestors(x.stmt) if isinstance(a, ast.If) and any(
+                    isinstance(n_, ast.Attribute) and n_.attr == "returncode" and isinstance(n_.value, ast.Name) and n_.value.id in res_names_d for n_ in ast.walk(a.test))]
+                if tests:
+                    fail_nodes.append(x)
+        all_rel = {n_ for kind_ in ("worktree remove", "branch -D") for f2, c, _o, _r in releases.get(kind_, []) if f2 is fn for n_ in cfg_nodes_containing(cfg, c)}
+        starts_d = list(fail_nodes)
+        ck = kwarg(call, "check")
+        if isinstance(ck, ast.Constant) and ck.value is True:
+            starts_d += [b for a in acq_nodes for b, lab in cfg.succ[a] if lab == "exc"]
+        if starts_d:
+            hit = cfg.reach(starts_d) & all_rel
+            ctx.ob("R1", key(fn, "no-release-after-failed-acquire"), not hit,
+                   "when `worktree add` fails nothing is released (the branch name may belong to the user)" if not hit else
+                   "the cleanup also runs when `worktree add` failed: `git branch -D <tmp_branch>` then deletes a branch that existed before and was never created here",
+                   where(fn, call))
         # (b) same values, single assignment
         def single(name: str) -> bool:
             return len(stores_of(fn.node, name)) <= 1
